@@ -48,11 +48,18 @@ def terminal_strategy(draw, index, rich=True):
         vs = []
         for i in range(n):
             if draw(st.integers(0, 2)) == 0:
-                size = draw(st.integers(0, 7))
+                size = draw(st.sampled_from([0, 0, 1, 2, 3, 4, 5, 6, 7]))
             else:
                 size = draw(st.sampled_from("BHIQbhiq" if rich else "HhIi"))
-            vs.append({"name": f"{prefix}{i}", "size": size,
-                       "via": draw(st.sampled_from(["packet", "process"]))})
+            v = {"name": f"{prefix}{i}", "size": size,
+                 "via": draw(st.sampled_from(["packet", "process",
+                                              "override"]))}
+            if v["via"] == "override":
+                # the PDO mapping read from the terminal says something else
+                # (typically the whole word); the descriptor overrides it
+                v["mapped"] = draw(st.sampled_from(
+                    "BH" if isinstance(size, int) else "BHIQ"))
+            vs.append(v)
         return vs
     return {"position": 1000 + 7 * index + draw(st.integers(0, 6)),
             "use_fmmu": draw(st.booleans()),
@@ -147,6 +154,10 @@ def make_terminal(ec, spec, index):
         for k, v in enumerate(spec[direction]):
             if v["via"] == "packet":
                 ns[v["name"]] = PacketDesc(sm, posmap[v["name"]], v["size"])
+            elif v["via"] == "override":
+                idx = (0x6000 if direction == "in" else 0x7000) + 0x10 * k
+                ns[v["name"]] = ProcessDesc(idx, 1, v["size"])
+                pdos[idx, 1] = (sm, posmap[v["name"]], v["mapped"])
             else:
                 idx = (0x6000 if direction == "in" else 0x7000) + 0x10 * k
                 ns[v["name"]] = ProcessDesc(idx, 1)
